@@ -46,9 +46,9 @@ CONTROLS = [
     ('sample() sweeps from a centre on the last site', 'emu_mps/mps.py',
      '        assert one_state in {None, "r", "1"}\n        self.orthogonalize(0)\n',
      '        assert one_state in {None, "r", "1"}\n        self.orthogonalize(self.num_sites - 1)\n'),
-    ('sample() keeps the branch of the previous shot', 'emu_mps/mps.py',
+    ('sample() always continues with the branch of outcome 0', 'emu_mps/mps.py',
      'batched_accumulator = batched_accumulator[rangebatch, outcomes, :]',
-     'batched_accumulator = batched_accumulator[rangebatch, outcomes.roll(1), :]'),
+     'batched_accumulator = batched_accumulator[rangebatch, outcomes * 0, :]'),
     ('sample() writes site q at string position N-1-q', 'emu_mps/mps.py',
      'batch_outcomes[:, qubit] = outcomes', 'batch_outcomes[:, self.num_sites - 1 - qubit] = outcomes'),
 ]
